@@ -7,16 +7,23 @@ IDS="$*"
 [ -z "$IDS" ] && IDS=$(ls seeded)
 FAIL=0
 for id in $IDS; do
-  prop=$(/venv/bin/python -c "import json;print(json.load(open('seeded/$id/meta.json'))['property'])")
+  # meta.json may say which check is expected to flag the change ("check_with": {"property": .., "args": ..})
+  # and what is expected ("expect": "detected" | "not-detected", the latter for a documented blind spot)
+  prop=$(/venv/bin/python -c "import json;m=json.load(open('seeded/$id/meta.json'));print((m.get('check_with') or {}).get('property') or m['property'])")
+  args=$(/venv/bin/python -c "import json;m=json.load(open('seeded/$id/meta.json'));print((m.get('check_with') or {}).get('args') or '')")
+  expect=$(/venv/bin/python -c "import json;m=json.load(open('seeded/$id/meta.json'));print(m.get('expect') or 'detected')")
   scratch=$(mktemp -d /tmp/fv-sens-XXXXXX)
   rsync -a --exclude .git --exclude '__pycache__' /repo/ "$scratch/repo/"
   if ! (cd "$scratch/repo" && patch -p1 -s < /verif/seeded/$id/patch.diff); then
     echo "$id: patch does not apply to the current tree"; rm -rf "$scratch"; FAIL=1; continue
   fi
-  FACTOSIM_REPO="$scratch/repo" ./check "$prop" --tier quick --no-evidence > "$scratch/out.log" 2>&1
+  # shellcheck disable=SC2086
+  FACTOSIM_REPO="$scratch/repo" ./check "$prop" --tier quick --no-evidence $args > "$scratch/out.log" 2>&1
   rc=$?
   n=$(grep -c "^VIOLATION" "$scratch/out.log")
-  if [ "$rc" = 1 ]; then echo "$id: detected (property $prop, $n violations reported)"; else echo "$id: NOT detected (exit $rc)"; FAIL=1; fi
+  if [ "$rc" = 1 ]; then echo "$id: detected (property $prop $args, $n violations reported)"
+  elif [ "$expect" = "not-detected" ]; then echo "$id: not detected, as documented (exit $rc)"
+  else echo "$id: NOT detected (exit $rc)"; FAIL=1; fi
   rm -rf "$scratch"
 done
 exit $FAIL
